@@ -222,7 +222,7 @@ def expected_product(mat):
     return "".join(text), frags, order
 
 
-def run_assembly(mat, ctx=None, classes=None, records=None, kwargs=True, inspect_first=None):
+def run_assembly(mat, ctx=None, classes=None, records=None, kwargs=True, inspect_first=None, rename_after_wrap=False):
     """call the real assemble(); returns dict(outcome='product'|'error', product, error, warnings, inputs, entities).
     inspect_first: the entities are first asked for validity, overhangs, target (and placeholder) - what a user
     looking at the parts before assembling them does - and then the *same entity objects* are assembled
@@ -250,6 +250,11 @@ def run_assembly(mat, ctx=None, classes=None, records=None, kwargs=True, inspect
                 pass
         if ctx is not None:
             ctx.count("assemblies_with_entities_inspected_first")
+    if rename_after_wrap:
+        # the plasmids are given their final names only after they were typed (wrapped in their classes)
+        for e in [vec] + mods:
+            e.record.id = e.record.id + "_v2"
+            e.record.name = e.record.id
     kw = {"id": mat.get("id", "assembly"), "name": mat.get("name", "assembly")} if kwargs else {}
     res = {"vector": vec, "modules": mods, "vrec": vrec, "mrecs": mrecs}
     with warnings.catch_warnings(record=True) as w:
